@@ -179,6 +179,7 @@ theorem wf2_fromExpr (c : Ctx) (hlast : FermionsLast c) : ∀ e : OpExpr, e.wf c
   | .scalar z, _ => wf2_scalar c z
   | .gen i b, h => wf2_gen c i b (by simpa [OpExpr.wf] using h)
   | .number i, _ => wft_numberForm c _
+  | .fn f, _ => wft_numberForm c f
   | .add a b, h => by
     simp only [OpExpr.wf, Bool.and_eq_true] at h
     exact wf2_add c _ _ (wf2_fromExpr c hlast a h.1) (wf2_fromExpr c hlast b h.2)
@@ -213,6 +214,9 @@ theorem roundtrip (c : Ctx) (hlast : FermionsLast c) :
   | .gen i b, h, s, s'', hs => ampF'_gen c i b (by simpa [OpExpr.wf] using h) s s'' hs
   | .number i, _, s, s'', hs => by
     show ampF' c (numberForm c fun N => ofInt (Occ.get N i)) s s'' = ker [(s, ofInt (Occ.get s i))] s''
+    rw [ampF'_numberForm c _ s s'' hs.len]; simp [ker]
+  | .fn f, _, s, s'', hs => by
+    show ampF' c (numberForm c f) s s'' = ker [(s, f s)] s''
     rw [ampF'_numberForm c _ s s'' hs.len]; simp [ker]
   | .add a b, h, s, s'', hs => by
     simp only [OpExpr.wf, Bool.and_eq_true] at h
